@@ -737,6 +737,26 @@ impl<T, S: Status, A: Clone + Allocator> RawTable<T, S, A> {
     }
 }
 
+/// Verification hook: observe the slot states without touching the table
+#[cfg(oxidd_verif)]
+impl<T, S: Status, A: Clone + Allocator> RawTable<T, S, A> {
+    /// Returns `(free slots, tombstones, occupied slots, value of the internal
+    /// free counter)`
+    pub fn verif_slot_census(&self) -> (usize, usize, usize, usize) {
+        let (mut free, mut tombstones, mut occupied) = (0, 0, 0);
+        for slot in self.data.iter() {
+            if slot.status.is_hash() {
+                occupied += 1;
+            } else if slot.status == S::FREE {
+                free += 1;
+            } else {
+                tombstones += 1;
+            }
+        }
+        (free, tombstones, occupied, self.free)
+    }
+}
+
 impl<T: Clone, S: Status, A: Clone + Allocator> Clone for RawTable<T, S, A> {
     #[inline]
     fn clone(&self) -> Self {
